@@ -245,6 +245,24 @@ def check(col: Collector, tier: str):
         col.add("C06.R5", f"process_metadata.{mdt}", "element_type-iff-contains_collection", okc,
                 "element_type must be given exactly when contains_collection is true, else ValueError", pmf.loc)
 
+    # an explicit pointer depth given together with a parsed type is silently ignored by terminal.__init__
+    tinit = repo.find_class("terminal").methods["__init__"]
+    ignores = "isinstance(t, CPPParsedTypeInfo)" in src(tinit.node)
+    for f in repo.all_functions():
+        for c in walk_no_nested(f.node):
+            if isinstance(c, ast.Call) and (call_name(c) in ("terminal", "collection") or call_name(c).endswith("_event_collection_collection")
+                                            or call_name(c).endswith("_event_collection_container")):
+                depth_args = [k.arg for k in c.keywords if k.arg and k.arg.startswith("p_depth")]
+                parsed = [a for a in c.args if (isinstance(a, ast.Call) and call_name(a) == "parse_type")
+                          or (isinstance(a, ast.Name) and any(isinstance(d, ast.Call) and call_name(d) == "parse_type" for d in defs_of(f.node, a.id)))]
+                if depth_args and parsed and ignores:
+                    col.add("C06.R5", f.short, f"explicit-depth-with-parsed-type:{call_name(c)}", False,
+                            f"`{src(c)[:70]}` passes a parsed type together with {depth_args}: when the type is a CPPParsedTypeInfo the pointer depth is "
+                            "taken from it and the explicit depth (e.g. from element_pointer) is ignored", f"{f.module.rel}:{c.lineno}")
+    col.add("C06.R5", "cpp_types.terminal", "parsed-type-and-explicit-depth-never-combined", True, "scanned all type constructions")
+    from sa.props._tr import import_obligations
+    import_obligations(col, "C06.R6", "c14", lambda o: o.construct == "template.atlas:link_libraries",
+                       "two libraries rendered without a separator name a library that does not exist")
     # ------------------------------------------------------------ R6 de-duplication + forwarding
     col.floor("C06.R6", 4)
     for meth, lst in (("add_include", "_include_files"), ("add_link_library", "_link_libraries")):
